@@ -9,14 +9,24 @@ GROUPS = [
          loops=["acmod_process_cep.grow"], allow_no_body=["*"], min_postconditions=3),
 ]
 
+NATIVE = [
+    dict(name="chunking_diff", source="native/chunking_diff.c", repo_sources="ALL_EXCEPT:", cflags=["-w", "-fsanitize=address"],
+         args={"quick": [], "thorough": ["thorough"]}, exhaustive=False, timeout=3000,
+         bound="about 400 decodes (thorough 560) of tests/data/goforward.raw (2.8 s) with the bundled en-us model under AddressSanitizer: one call vs fixed piece sizes 160..30000 vs a first piece of exactly k frames "
+               "(k = 100..150, +-1 sample) vs a small first piece (400..5000 samples) then > 250 frames in one call; the k-sweep on a NEW decoder per run (128-frame buffers); searched as data arrives vs buffered; with / without partial results; int16 / float32; on a fresh decoder and after a full_utt utterance; "
+               "hypothesis, score, segments, frame count and phone alignment must be identical to the one-call result"),
+]
 ASSUMPTIONS = [
     "integer level only: feature vectors are opaque; the ring is described by n_feat_alloc, feat_outidx, n_feat_frame, output_frame",
     "acmod_rewind precondition: frames consumed + frames queued fit in the allocation, or the ring has been overrun (every decoder-level caller rewinds with the ring drained or in growing mode)",
     "calc_feat_idx: ring size <= 256 and frame numbers <= 100000 (the 32-bit symbolic modulus does not finish)",
 ]
 HAND_LEMMAS = ["frames are consumed in the order they were written: acmod_advance moves the read slot to (slot + 1) mod n and calc_feat_idx maps absolute frame f to (feat_outidx + f - output_frame) mod n, the same sequence of slots the writer fills"]
-NOT_COVERED = ["end-to-end equality of hypotheses / scores under re-chunking (relational over two whole executions)", "acmod_process_cep (writer side of the ring; contract written in contracts/acmod.contracts.h, tier 'probe': its obligations are not all discharged and the failing ones are not understood well enough to call them either defects or specification errors -- seeded change C07_A is NOT detected)", "feat_s2mfc2feat_live live buffer (seeded change C07_B)", "cepstra ring (mfc_buf), acmod_process_raw/mfcbuf", "observations from the unfinished acmod_process_cep contract (counterexamples of CBMC, NOT reproduced natively, reachable at most through the acmod-level API because decoder_process_* drains the ring after every call and never offers more cepstra than the ring holds): (1) with unread frames reaching the ring end and a request larger than the free space, the two-part write uses the unclamped frame count and overwrites unread frames; (2) if feat_s2mfc2feat_live consumes fewer cepstra than offered in the first part of a two-part write, the second part starts before the ring end and can run past the allocation; (3) at the end of an utterance with a wrapped write the function returns 0 although it dropped the offered cepstra"]
+NOT_COVERED = ["the relational end-to-end statement (identical results under re-chunking) is NOT provable by per-function contracts (it relates two whole executions); it is decided only by the bounded native differential run chunking_diff "
+               "(one recording, one model, about 400 partitions) -- never counted as proved",
+               "acmod_process_cep (writer side of the feature ring; contract written in contracts/acmod.contracts.h, tier 'probe': not all obligations discharged) and the feat_s2mfc2feat_live live buffer are NOT under contract",
+               "cepstra ring (mfc_buf) two-part writes, acmod_process_full_*, fr-fr model, other recordings / grammars, partial results compared only through their absence of side effects"]
 CLAIM = dict(
-    text="Reader side of the feature ring buffer only: acmod_advance is proved to move the read slot to the next slot of the ring, consume exactly one frame, never wrap in growing mode and preserve the ring invariant; acmod_rewind restores exactly consumed+queued frames from slot 0 and refuses an overrun ring; calc_feat_idx maps an absolute frame to (feat_outidx + f - output_frame) mod n and refuses frames the ring no longer holds (bounded ring size). That decoding results are identical under re-chunking is NOT decided; the writer side (acmod_process_cep) is not claimed.",
-    note="reader side of the ring only; writer side, live feature buffer and the relational end-to-end statement not covered; trusted: CBMC 6.11",
-    technique="CBMC function contracts (goto-instrument --dfcc), loop-free integer code over the full state space of the ring")
+    text="Reader side of the feature ring buffer only: acmod_advance is proved to move the read slot to the next slot of the ring, consume exactly one frame, never wrap in growing mode and preserve the ring invariant; acmod_rewind restores exactly consumed+queued frames from slot 0 and refuses an overrun ring; calc_feat_idx maps an absolute frame to (feat_outidx + f - output_frame) mod n and refuses frames the ring no longer holds (bounded ring size). That decoding results are identical under re-chunking is NOT decided; the writer side (acmod_process_cep) is not claimed. The end-to-end clause is checked by a bounded native differential run: the real decoder decodes one recording in about 400 different ways (piece sizes, a first piece of exactly k frames around the 128-frame buffer size on a new decoder, buffered vs immediate search, partial results, int16 vs float32, before and after a full_utt utterance) under AddressSanitizer, and hypothesis, scores, segments, frame count and phone alignment must equal the one-call result. It found a genuine defect (a first chunk shorter than one frame changed the result), repaired in /repo.",
+    note="reader side of the ring only; writer side, live feature buffer and the relational end-to-end statement not covered; trusted: CBMC 6.11; end-to-end clause by a bounded native differential run (not proof)",
+    technique="CBMC function contracts (goto-instrument --dfcc), loop-free integer code over the full state space of the ring; bounded native differential run of the real decoder over ~400 partitions of one recording as stand-in for the relational clause")
